@@ -147,6 +147,22 @@ func TestModulePermutation(t *testing.T) {
 		m.Order = permute(rt, m)
 		px := m.TextNoisy(noise)
 		m.Order = orig
+		// one case in four: the module refers to its attribute groups without defining them (accepted by
+		// LLVM and by the parser, the documented exception of C05); whatever the printer lists for them
+		// must obey the same order rules
+		if rapid.IntRange(0, 3).Draw(rt, "undefinedGroups") == 0 {
+			strip := func(s string) string {
+				var keep []string
+				for _, l := range strings.Split(s, "\n") {
+					if !reAttrGrp.MatchString(l) {
+						keep = append(keep, l)
+					}
+				}
+				return strings.Join(keep, "\n")
+			}
+			x, px = strip(x), strip(px)
+			hx.Hist("variant/attribute_groups_referenced_but_undefined")
+		}
 		hx.Eval(1)
 		c := x + "\n; ======== permuted ========\n" + px
 		y1, _, err1, p1 := lx.ParsePrint(x)
